@@ -1436,10 +1436,9 @@ def run_generic_pack(repo, res, prop, extra_modules=()):
     n = 0
     for rule, fname in _PACK:
         fn = globals().get(fname) or run_forward
-        # a rule the property already ran over its own module set (MODS) is run over the remaining anchor modules only
-        scope = mods if rule not in before else rest
-        if not scope:
-            continue
+        # always over the whole scope: a property may have run the rule over a narrower hand-picked module set before
+        # (findings are keyed, so nothing is reported twice; obligations of the overlap are counted twice)
+        scope = mods
         r_ = fn(repo, res, scope)
         n += r_ if isinstance(r_, int) else 0
     res.notes['generic_pack_modules'] = sorted(mods)
